@@ -48,6 +48,23 @@ pub proof fn lemma_follows_push<const K: usize>(a: AArena<K>, nd: AffNode<K>, x:
     }
 }
 
+// the path found by following decisions determines the denoted value
+pub proof fn lemma_follows_tree_fn<const K: usize>(a: AArena<K>, h: Map<usize, nat>, idx: usize, x: V, ls: Seq<usize>)
+    requires ranked_down(a, h), kids_ok(a), a.dom().contains(idx), follows(a, a[idx], x, ls).is_some()
+    ensures
+        follows(a, a[idx], x, ls).unwrap().isleaf ==> tree_fn(a, h, idx, x) == Some(follows(a, a[idx], x, ls).unwrap().value.aff.ap(x)),
+        !follows(a, a[idx], x, ls).unwrap().isleaf && 0 <= decide(&follows(a, a[idx], x, ls).unwrap().value.aff, x) < K
+            && follows(a, a[idx], x, ls).unwrap().children[decide(&follows(a, a[idx], x, ls).unwrap().value.aff, x)].is_none() ==> tree_fn(a, h, idx, x).is_none(),
+    decreases ls.len()
+{
+    if ls.len() > 0 {
+        let nd = a[idx];
+        let c = nd.children[ls[0] as int].unwrap();
+        assert(h[c] < h[idx]);
+        lemma_follows_tree_fn(a, h, c, x, ls.drop_first());
+    }
+}
+
 // shape invariant of C04: input dimensions, decision row counts
 pub open spec fn aff_shape_ok<const K: usize>(a: AArena<K>, in_dim: usize) -> bool {
     forall|i: usize| #![trigger a[i].value] a.dom().contains(i) ==> a[i].value.aff.ok() && a[i].value.aff.mat.ncols() == in_dim
